@@ -8,7 +8,8 @@ META = {
     'functions': ['libdist._prepare_for_2d_to_1d_distance/_check_is_1d/_check_is_2d', 'libdist._euclidean/_manhattan/_hamming '
                   '(every fused specialisation, from the typed Cython tree)', 'libdist.euclidean/manhattan/hamming (wrappers)',
                   'enspara.cluster.util._get_distance_method'],
-    'bounds': {'quick': 'functional: 2 rows x 2 features per element type, symbolic contents over the full range of the type, with and '
+    'bounds': {'quick': 'functional: 2 rows x 2 features per element type, symbolic contents over the full range of the type ((double) of a 64-bit integer modelled with '
+                        'its rounding: exact to 2^53, nearest even to 2^54, relative 2^-53 beyond), with and '
                         'without out=; memory safety + prange independence: UNBOUNDED symbolic extents, ranks X in {1,2,3}, y in {1,2}, '
                         'out in {none,1,2}', 'thorough': 'functional 2x3'},
     'stubs': ['sqrt = r>=0 & r*r=x', 'Cython buffer acquisition (dtype / ndim validation of np.ndarray[T, ndim=k] arguments) is '
